@@ -25,6 +25,20 @@ class Lib(object):
             self._strf["concat"] = 1
             x, y = z3.Consts("x!c y!c", cx.Str)
             cx.axiom("str.concat.len", z3.ForAll([x, y], cx.strlen(f(x, y)) == cx.strlen(x) + cx.strlen(y), patterns=[f(x, y)]))
+            # monoid laws (re-association and the empty string): `a + b + c` and `a + (b + c)` are the same string
+            z = z3.Const("z!c", cx.Str)
+            cx.axiom("str.concat.assoc", z3.ForAll([x, y, z], f(f(x, y), z) == f(x, f(y, z)), patterns=[f(f(x, y), z)]))
+            e = cx.str_lit("")
+            cx.axiom("str.concat.unit-r", z3.ForAll([x], f(x, e) == x, patterns=[f(x, e)]))
+            cx.axiom("str.concat.unit-l", z3.ForAll([x], f(e, x) == x, patterns=[f(e, x)]))
+        # two literals: the literal of their concatenation ('http' + '://' is 'http://')
+        rev = getattr(cx, "_lit_of", None)
+        if rev is None or len(rev) != len(cx.str_lits):
+            rev = cx._lit_of = dict((v.get_id(), k) for k, v in cx.str_lits.items())
+        if a.get_id() in rev and b.get_id() in rev:
+            lit = cx.str_lit(rev[a.get_id()] + rev[b.get_id()])
+            cx.axiom("str.concat.lit", f(a, b) == lit)
+            return lit
         return f(a, b)
 
     def str_slice(self, s, lo, hi):
